@@ -660,3 +660,24 @@ def gen_sibling_reader_case(rng: random.Random):
         beh.append({'type': 'time-based', 'step_size': 1, 'default_output': [None, ['po']]})
     beh.append({'type': 'time-based', 'step_size': 1, 'default_output': [None, ['po']]})
     return dict(n=4, types=types, grp=grp, edges=edges, until=until, beh=beh, init=[], maxloop=100)
+
+
+def gen_forecast_case(rng: random.Random):
+    """forecasting producers: a hybrid simulator stamps every output of its persistent attribute a constant k >= 1 steps into
+    the future (monotone output times, so inside the data-flow hypotheses); its consumers step at times between the producing
+    step and the stamped time and must not see the value before it is due - with the cache on (pulled) exactly as with the
+    cache off (pushed through the timed buffer)"""
+    n = rng.choice([2, 3])
+    until = rng.randint(4, 7)
+    k = rng.choice([1, 2, 2, 3])
+    every = rng.choice([1, 2])
+    types = ['hybrid'] + [rng.choice(['time-based', 'hybrid']) for _ in range(n - 1)]
+    grp = [[] for _ in range(n)]
+    edges = [dict(a=0, b=j, sa='po', da='i', kind='p', shift=0, init=False) for j in range(1, n)]
+    if n == 3 and rng.random() < 0.5: edges[-1] = dict(a=0, b=2, sa='po', da='i', kind='ts', shift=1, init=True)
+    beh = [{'type': 'hybrid', 'self_steps': {str(t): t + every for t in range(0, until, every)},
+            'outputs': {f'{t},0': [t + k, ['po']] for t in range(until + 1)}, 'default_output': [None, ['po']]}]
+    for j in range(1, n):
+        if types[j] == 'time-based': beh.append({'type': 'time-based', 'step_size': 1, 'default_output': [None, ['po']]})
+        else: beh.append({'type': 'hybrid', 'self_steps': {str(t): t + 1 for t in range(until)}, 'outputs': {f'{t},0': [None, ['po']] for t in range(until + 1)}, 'default_output': [None, ['po']]})
+    return dict(n=n, types=types, grp=grp, edges=edges, until=until, beh=beh, init=[], maxloop=100)
